@@ -11,6 +11,7 @@ import (
 
 	"verif/mc/core"
 	"verif/mc/gen"
+	"verif/mc/hx"
 	"verif/mc/vsync"
 )
 
@@ -21,7 +22,7 @@ type jsCall struct {
 	Name string        `json:"name"`
 	JS   string        `json:"js,omitempty"`
 	Args []interface{} `json:"args,omitempty"`
-	Ctx  string        `json:"ctx,omitempty"`  // "", "rec", "root"; "newrec" = world step, no call
+	Ctx  string        `json:"ctx,omitempty"`  // "", "rec", "parent", "root" (grandparent); "newrec" = world step, no call
 	Want string        `json:"want,omitempty"` // expected JSON of the result, or "ERROR"
 }
 
@@ -55,18 +56,21 @@ func c20Alphabet() []jsCall {
 		{Name: "ctx-rec", JS: "JSON.parse(_node).v", Ctx: "rec"},
 		{Name: "ctx-rec-with-arg", JS: "JSON.parse(_node).v + a", Args: []interface{}{"a", "!"}, Ctx: "rec"},
 		{Name: "ctx-root", JS: "_node", Ctx: "root"},
+		{Name: "ctx-parent", JS: "_node", Ctx: "parent"},
 		{Name: "typeof-_node-without-context", JS: "typeof _node", Want: `"undefined"`},
 	}
 }
 
 type jsWorld struct {
-	root, cur *idr.Node
-	serial    int
+	root, grp, cur *idr.Node // R > G > rec > v: the record's parent G and grandparent R outlive the records
+	serial         int
 }
 
 func (w *jsWorld) newrec() {
 	if w.root == nil {
 		w.root = idr.CreateNode(idr.ElementNode, "R")
+		w.grp = idr.CreateNode(idr.ElementNode, "G")
+		idr.AddChild(w.root, w.grp)
 	}
 	if w.cur != nil {
 		idr.RemoveAndReleaseTree(w.cur)
@@ -76,7 +80,7 @@ func (w *jsWorld) newrec() {
 	v := idr.CreateNode(idr.ElementNode, "v")
 	idr.AddChild(v, idr.CreateNode(idr.TextNode, fmt.Sprint(w.serial)))
 	idr.AddChild(rec, v)
-	idr.AddChild(w.root, rec)
+	idr.AddChild(w.grp, rec)
 	w.cur = rec
 }
 
@@ -107,6 +111,11 @@ func (w *jsWorld) invoke(c jsCall) (res string, applicable bool) {
 			return "", false
 		}
 		return jsResult(v21cf.JavaScriptWithContext(nil, w.root, c.JS, c.Args...)), true
+	case "parent":
+		if w.grp == nil {
+			return "", false
+		}
+		return jsResult(v21cf.JavaScriptWithContext(nil, w.grp, c.JS, c.Args...)), true
 	}
 	return jsResult(v21cf.JavaScript(nil, c.JS, c.Args...)), true
 }
@@ -270,7 +279,7 @@ func c20RunHistory(names []string, x *core.Exec) (sig, detail string, outcomes [
 		if got != want {
 			kind := "call-sees-earlier-call"
 			switch {
-			case c.Ctx == "root":
+			case c.Ctx == "root" || c.Ctx == "parent":
 				kind = "stale-_node-of-node-changed-since-first-use"
 			case c.Ctx == "rec":
 				kind = "stale-_node-of-record"
@@ -334,7 +343,7 @@ func init() {
 	core.Register(&core.Prop{
 		ID:    "C20",
 		Level: "model_checking",
-		Rule:  "E0: a value-mapping table of 190 scripts (numbers incl. -0 / 2^53 / MAX_VALUE, every way to produce NaN, +Infinity and -Infinity, null, undefined, thrown values; strings; booleans; nested arrays / objects; typed arguments), each alone and inside 4 call histories on pooled VMs, against the JSON value the property prescribes (or, where it prescribes none, against the isolated call); E1: every history of up to 3 (thorough 4) calls over a 29-symbol alphabet (arguments of every kind, argument named like a built-in, all result kinds, NaN/Infinity/null/undefined/throw/syntax error/odd argument count, IIFE locals, javascript_with_context on the record node, on an ancestor whose children change, and after the record node was released and re-acquired) x every VM-pool answer (reuse/fresh) at every Get; every call's result must equal the same call made in isolation on a fresh VM with all caches disabled, and the expected value of a table (states = distinct (history prefix) outcome vectors, transitions = calls). E2: two threads x two calls from the alphabet under the cooperative scheduler (yield at every VM-pool / cache operation), all schedules with <= 2 preemptions; plus a free-running -race pass",
+		Rule:  "E3: a Transform whose schema calls javascript / javascript_with_context anchored on the record, its parent and its grandparent (directly, inside an object moved to the parent, and with arguments read through the ancestor) over every record sequence of length 2..3 (thorough 4) over {A, B, C, failing F}: every result equals the record transformed alone; E0: a value-mapping table of 190 scripts (numbers incl. -0 / 2^53 / MAX_VALUE, every way to produce NaN, +Infinity and -Infinity, null, undefined, thrown values; strings; booleans; nested arrays / objects; typed arguments), each alone and inside 4 call histories on pooled VMs, against the JSON value the property prescribes (or, where it prescribes none, against the isolated call); E1: every history of up to 3 (thorough 4) calls over a 30-symbol alphabet (arguments of every kind, argument named like a built-in, all result kinds, NaN/Infinity/null/undefined/throw/syntax error/odd argument count, IIFE locals, javascript_with_context on the record node, on an ancestor whose children change, and after the record node was released and re-acquired) x every VM-pool answer (reuse/fresh) at every Get; every call's result must equal the same call made in isolation on a fresh VM with all caches disabled, and the expected value of a table (states = distinct (history prefix) outcome vectors, transitions = calls). E2: two threads x two calls from the alphabet under the cooperative scheduler (yield at every VM-pool / cache operation), all schedules with <= 2 preemptions; plus a free-running -race pass",
 		Assumptions: []string{
 			"scripts that assign globals themselves are excluded by the property; top-level scripts of the alphabet are pure expressions or IIFEs",
 			"the isolated reference call uses the library's own 'caching disabled' path (fresh goja VM, no program / node-JSON cache)",
@@ -410,6 +419,77 @@ func init() {
 								s, _, _ := c20RunHistory(cs.History, &core.Exec{Prefix: cs.Pool})
 								return s
 							})
+						}
+						return true
+					})
+				}
+			}
+			// E3: the calls as a Transform makes them, anchored on the record, its parent and its grandparent
+			// (nodes that outlive the record), over record sequences: every result = the record alone
+			{
+				st := `{"parser_settings":{"version":"omni.2.1","file_format_type":"xml"},"transform_declarations":{"FINAL_OUTPUT":{"xpath":"/feed/batch/item","object":{
+ "own":{"custom_func":{"name":"javascript_with_context","args":[{"const":"JSON.parse(_node).id"}]}},
+ "par":{"xpath":"..","custom_func":{"name":"javascript_with_context","args":[{"const":"JSON.parse(_node).item.id"}]}},
+ "gp":{"xpath":"../..","custom_func":{"name":"javascript_with_context","args":[{"const":"JSON.parse(_node).batch.item.id"}]}},
+ "objpar":{"xpath":"..","object":{"x":{"custom_func":{"name":"javascript","args":[{"const":"if (v=='F') { throw 'bad' } v+'!'"},{"const":"v"},{"xpath":"item/id"}]}},"y":{"custom_func":{"name":"javascript_with_context","args":[{"const":"JSON.parse(_node).item.id + w"},{"const":"w"},{"xpath":"item/id"}]}}}},
+ "argpar":{"xpath":"..","custom_func":{"name":"javascript","args":[{"const":"v+'?'"},{"const":"v"},{"xpath":"item/id"}]}},
+ "arggp":{"xpath":"../..","custom_func":{"name":"javascript","args":[{"const":"v+'#'"},{"const":"v"},{"xpath":"batch/item/id"}]}}}}}}`
+				schema, err, _ := hx.NewSchema("s", st)
+				if err != nil {
+					c.HarnessError("E3 schema rejected: " + err.Error())
+				} else {
+					rec := func(sym byte) string { return "<item><id>" + string(sym) + "</id></item>" }
+					runSeq := func(seq string) []string {
+						var b strings.Builder
+						b.WriteString("<feed><batch>")
+						for i := 0; i < len(seq); i++ {
+							b.WriteString(rec(seq[i]))
+						}
+						b.WriteString("</batch></feed>")
+						r := hx.Run(schema, strings.NewReader(b.String()), hx.Opts{MaxReads: 20, NoChecksum: true})
+						var out []string
+						for _, s := range r.Steps {
+							out = append(out, s.Kind+" "+s.Out)
+						}
+						return out
+					}
+					solo := map[byte]string{}
+					for _, sym := range []byte("ABCF") {
+						resetProcessState()
+						o := runSeq(string(sym))
+						if len(o) != 2 {
+							c.HarnessError(fmt.Sprintf("E3 solo run of %c: %v", sym, o))
+						} else {
+							solo[sym] = o[0]
+						}
+					}
+					gen.Sequences(4, depth, func(seq []int) bool {
+						if len(seq) < 2 {
+							return true
+						}
+						idx++
+						if !c.Mine(idx) {
+							return true
+						}
+						b := make([]byte, len(seq))
+						for i, x := range seq {
+							b[i] = "ABCF"[x]
+						}
+						cs := c20Case{History: []string{"transform:" + string(b)}}
+						c.Begin(func() interface{} { return cs })
+						resetProcessState()
+						out := runSeq(string(b))
+						c.Eval("E3|" + string(b))
+						c.Count("transform_level_sequences", 1)
+						for i := range b {
+							if i >= len(out) || out[i] != solo[b[i]] {
+								got := "<missing>"
+								if i < len(out) {
+									got = out[i]
+								}
+								c.Violation("E3:call-result-depends-on-earlier-records", fmt.Sprintf("record sequence %s position %d:\n-- in the sequence: %s\n-- alone:           %s", b, i, got, solo[b[i]]), cs, nil)
+								break
+							}
 						}
 						return true
 					})
